@@ -185,6 +185,9 @@ def run(ctx):
             s_ok += 1
     finally:
         shutil.rmtree(work, ignore_errors=True)
+    if not ctx.replay:
+        ctx.sample({"query": QUERY, "last generated object": "%s/%d, %d symbols" % (o.machine, o.bits, len(o.symbols)),
+                    "model lines `<pos> <type> <family> <name> <bind> <family> <name> <vis> <name>`": ml[:3]})
     ctx.cov["evaluations"] = total + s_syms
     ctx.cov["distinct_nontrivial"] = len(combos)
     ctx.cov["generated_objects"] = n
